@@ -215,7 +215,9 @@ func errReaches(v ssa.Value, seen map[ssa.Value]bool) bool {
 						if x.Op == token.EQL {
 							succ = ifi.Block().Succs[1]
 						}
-						if blockReturnsNonNilError(succ) {
+						// the non-nil edge must return an error made right there (errors.New / fmt.Errorf) —
+						// continuing with other work and returning *its* error is a swallowed error
+						if blockReturnsFreshError(succ) {
 							return true
 						}
 					}
@@ -224,6 +226,38 @@ func errReaches(v ssa.Value, seen map[ssa.Value]bool) bool {
 		}
 		return false
 	})
+}
+
+// blockReturnsFreshError: the block ends in a return whose error result is constructed in this very
+// block by errors.New / fmt.Errorf (or a module constructor), with no other fallible work in between.
+func blockReturnsFreshError(b *ssa.BasicBlock) bool {
+	if len(b.Instrs) == 0 {
+		return false
+	}
+	r, ok := b.Instrs[len(b.Instrs)-1].(*ssa.Return)
+	if !ok || len(r.Results) == 0 {
+		return false
+	}
+	last := r.Results[len(r.Results)-1]
+	if !isErrorType(last.Type()) || isNilConst(last) {
+		return false
+	}
+	v := last
+	if mi, ok := v.(*ssa.MakeInterface); ok {
+		v = mi.X
+	}
+	cl, ok := v.(*ssa.Call)
+	if !ok || cl.Block() != b {
+		// a pre-declared sentinel error (global) is fine as well
+		if ld, ok := v.(*ssa.UnOp); ok {
+			if _, isG := ld.X.(*ssa.Global); isG {
+				return true
+			}
+		}
+		return false
+	}
+	n := calleeName(&cl.Call)
+	return n == "fmt.Errorf" || n == "errors.New" || strings.HasPrefix(n, "errors.")
 }
 
 func blockReturnsNonNilError(b *ssa.BasicBlock) bool {
@@ -240,7 +274,7 @@ func blockReturnsNonNilError(b *ssa.BasicBlock) bool {
 
 func init() {
 	register(&Rule{
-		ID: "C12.R1", Props: []string{"C12"}, Min: 20,
+		ID: "C12.R1", Props: []string{"C12", "C07"}, Min: 20,
 		Doc: "every call that receives the destination writer (Write, io.WriteString, io.Copy, WriteTo, Fprint*, or a module function handed the writer) propagates its error result to the enclosing function's error return, all the way up to the render entry",
 		Run: func(p *Prog, c *Ctx) {
 			d := p.destTaint()
